@@ -37,6 +37,13 @@ theorem c02_convertArg_err (parse : String → Option Q) (pos : DecPos) (v : PyV
       rw [hm] at h; simp at h; subst h
       exact c02_mapE_err _ (fun e => e = .typeErr ∨ e = .valueErr) (fun a e he => c02_toDecimal_err parse a e he) xs e' hm
     | ok ys => rw [hm] at h; simp at h
+  · rename_i xs
+    cases hm : mapE (toDecimal parse) xs with
+    | error e' =>
+      rw [hm] at h; simp at h; subst h
+      exact c02_mapE_err _ (fun e => e = .typeErr ∨ e = .valueErr) (fun a e he => c02_toDecimal_err parse a e he) xs e' hm
+    | ok ys => rw [hm] at h; simp at h
+  · split at h <;> cases h
   · rename_i kvs
     cases hm : mapE (fun (kv : PyVal × PyVal) => bindE (toDecimal parse kv.2) fun y => .ok (kv.1, y)) kvs with
     | error e' =>
